@@ -1,17 +1,18 @@
 #!/bin/bash
-# usage: tools/confirm_seed.sh <worktree> <seeddir>   - confirms: suite passes with the change, demo fails with it and passes without
+# usage: tools/confirm_seed.sh <worktree> <seeddir>
+# confirms: existing suite passes with the change; demo fails with it and passes without (no git stash: it is shared between worktrees)
 wt="$1"; sd="$2"
 cd "$wt" || exit 2
 export CARGO_TARGET_DIR="$wt/target"
-git diff --quiet && { echo "worktree has no change applied"; git apply "$sd/patch.diff" || exit 2; }
-rm -f tests/seed_demo.rs
-suite=$(cargo test --workspace --no-fail-fast --offline 2>&1 | grep -E "^test result" | tr '\n' ' ')
+git checkout -q -- . ; rm -f tests/seed_demo.rs
+git apply "$sd/patch.diff" || { echo "patch does not apply"; exit 2; }
+suite=$(cargo test --workspace --no-fail-fast --offline 2>&1 | grep -E "^test result" | sed 's/finished in [0-9.]*s//' | tr '\n' ' ')
 echo "suite with change: $suite"
 cp "$sd/demo.rs" tests/seed_demo.rs
-with=$(cargo test --offline --test seed_demo 2>&1 | grep -E "^test result" | tr '\n' ' ')
+with=$(timeout 600 cargo test --offline --test seed_demo 2>&1 | grep -E "^test result|SIGABRT|signal|overflowed" | sed 's/finished in [0-9.]*s//' | tr '\n' ' ')
 echo "demo with change:  $with"
-git stash -q
-without=$(cargo test --offline --test seed_demo 2>&1 | grep -E "^test result" | tr '\n' ' ')
+git apply -R "$sd/patch.diff"
+without=$(timeout 600 cargo test --offline --test seed_demo 2>&1 | grep -E "^test result|SIGABRT|signal|overflowed" | sed 's/finished in [0-9.]*s//' | tr '\n' ' ')
 echo "demo clean:        $without"
-git stash pop -q
 rm -f tests/seed_demo.rs
+git apply "$sd/patch.diff"
